@@ -25,7 +25,9 @@ TIERS = {
     "quick": dict(local=["a", "a b", "%", "?", "#", "|", "+", "&", "\"", "^", "%41", "a:b"],
                   remote=["/r", "/r s", "r", ""], hosts=["", "other.example", "localhost"], ports=[0, 70, 7070],
                   urls=["URL:http://h.example/p?q=1&r", "/URL:http://h.example/"],
-                  stok=["a", " ", "+", "%", "&", "=", "?", "#", "^", "%41"], maxsearch=2,
+                  stok=["a", " ", "1", "+", "%", "&", "=", "?", "#", "^", "%41"], maxsearch=2,
+                  sshapes=["a 1", "a b 1", "/zz 0", "x HTTP/1.0", "GET /zz HTTP/1.0", "gemini://localhost/zz",
+                           "{" * 14, "{" * 44], deep=["{{"],
                   ssels=["/echo.pyg", "/echo.pyg?arg", "/e#.pyg", "/e%41.pyg", "/e^.pyg", "/e b.pyg"],
                   kinds=["file", "dir", "mbox", "maildir", "mapdir", "zip"], inner=["a b", "^", "?"],
                   views=ALL_VIEWS, hls=["default", "full"], srvports=[70, 7070],
@@ -36,7 +38,10 @@ TIERS = {
                      ports=[0, 70, 7070, 1],
                      urls=["URL:http://h.example/p?q=1&r", "/URL:http://h.example/", "URL:mailto:x@h.example",
                            "URL:gopher://other.example:71/1/x"],
-                     stok=["a", " ", "+", "%", "&", "=", "?", "#", "^", "%41", "$", "!", ";", "/"], maxsearch=3,
+                     stok=["a", " ", "1", "+", "%", "&", "=", "?", "#", "^", "%41", "$", "!", ";", "/"], maxsearch=3,
+                     sshapes=["a 1", "a b 1", "python 3", "route 66 1", "/zz 0", "localhost /zz 0", "x HTTP/1.0",
+                              "GET /zz HTTP/1.0", "GET /wap/zz HTTP/1.0", "gemini://localhost/zz", "{" * 3, "{" * 14,
+                              "{" * 44, "}" * 44, "{" * 190], deep=["{{", "}}", "{^"],
                      ssels=["/echo.pyg", "/echo.pyg?arg", "/e#.pyg", "/e%41.pyg", "/e^.pyg", "/e b.pyg", "/e+.pyg",
                             "/e&.pyg?a=b"],
                      kinds=["file", "dir", "mbox", "maildir", "mapdir", "zip"], inner=["a b", "^", "?", "|", "%41", "#"],
@@ -55,6 +60,8 @@ CONSTANTS
   SearchTokens <- K_SearchTokens
   MaxSearch = %(maxsearch)d
   SearchSels <- K_SearchSels
+  SearchShapes <- K_SearchShapes
+  DeepNames6 <- K_DeepNames
   Views6 <- K_Views6
   Kinds6 <- K_Kinds6
   Inner6 <- K_Inner6
@@ -62,6 +69,7 @@ CONSTANTS
 INVARIANT EntriesAgree
 INVARIANT SearchesArrive
 INVARIANT TreesAgree
+INVARIANT OnlyKnownCaptures
 CHECK_DEADLOCK FALSE
 """
 TRACE_CFG = """SPECIFICATION TSpec
@@ -97,7 +105,7 @@ class PYGMain(PYGBase):
 
 def sets_for(t):
     return {"LocalNames": t["local"], "RemoteSels": t["remote"], "Hosts": t["hosts"], "UrlSels": t["urls"],
-            "SearchTokens": t["stok"], "SearchSels": t["ssels"], "Views6": t["views"], "Kinds6": t["kinds"], "Inner6": t["inner"],
+            "SearchTokens": t["stok"], "SearchSels": t["ssels"], "SearchShapes": t["sshapes"], "DeepNames": t["deep"], "Views6": t["views"], "Kinds6": t["kinds"], "Inner6": t["inner"],
             "HLs": t["hls"], "Tokens": ["a"], "Shapes": [], "InnerTokens": ["a"], "Kinds2": [], "Views": ["G"]}
 
 
@@ -209,6 +217,7 @@ def observe(w, p, sel, slash, k, want_entries, hdr=False):
         m = _VIEWS_MIME.search(r2.out)
         mime = m.group(1).decode("latin-1") if m else ""
     ev = {"ev": "view" if want_entries else "object", "p": p, "sel": sel, "slash": slash, "hdr": hdr, "req": rq,
+          "nbytes": len(L.conc(rq["line"], k.hi_byte)) + len(L.conc(rq["rest"], k.hi_byte)),
           "cls": c["cls"], "obj": c["obj"], "mime": L.absx(mime)}
     if want_entries:
         ents = c["entries"]
@@ -248,6 +257,7 @@ def do_search(w, p, isel, s, k):
     chain = []
     if p == "M":
         rq = L.follow(p, t, base, "", k)
+        nb0 = len(L.conc(rq["line"], k.hi_byte)) + len(L.conc(rq["rest"], k.hi_byte))
         r = L.send(w, rq, k)
         c = L.classify(p, r, k)
         if c["cls"] == "prompt":
@@ -265,13 +275,15 @@ def do_search(w, p, isel, s, k):
                 chain.append({"line": rq3["line"], "cls": c["cls"], "loc": ""})
     else:
         rq = L.follow(p, t, base, s, k)
+        nb0 = len(L.conc(rq["line"], k.hi_byte)) + len(L.conc(rq["rest"], k.hi_byte))
         r = L.send(w, rq, k)
         c = L.classify(p, r, k)
     m = re.search(rb"SEARCH=X([0-9a-f]*)", r.out)
     got = L.absx(bytes.fromhex(m.group(1).decode())) if m else "(not delivered)"
     if got == "":
         got = "(not delivered)"
-    return ({"ev": "search", "p": p, "s": s, "base": base, "t": t, "req": rq, "chain": chain, "cls": c["cls"], "got": got},
+    return ({"ev": "search", "p": p, "s": s, "base": base, "t": t, "req": rq, "nbytes": nb0, "chain": chain, "cls": c["cls"],
+             "got": got},
             {"rq": rq, "out": r.out[:200].decode("latin-1"), "log": r.log[-2:]})
 
 
@@ -311,7 +323,7 @@ def _run_site(site):
     frontier = [x for x in ev0.get("entries", [])]
     seen = set()
     depth = 0
-    while frontier and depth < 3:
+    while frontier and depth < 24:            # as deep as the tree goes (the deep kind has DeepDepth levels)
         nxt = []
         for x in frontier:
             t = x["t"]
@@ -328,7 +340,7 @@ def _run_site(site):
                 objs.append(t["sel"])
         frontier = nxt
         depth += 1
-    dirs, objs = dirs[:6], objs[:10]
+    dirs, objs = dirs[:20], objs[:10]
 
     def sweep(p):
         evs, con = [], []
@@ -428,13 +440,18 @@ def make_sites(t, model, port, hl, seed):
             continue
         if port != t["srvports"][0]:
             continue
-        for ah, ae in t["cfgs"]:
+        # quick: leaf kinds and the deep tree under one abstract configuration, containers under all
+        for ah, ae in (t["cfgs"][:1] if (c["k"] in ("deep", "file", "mbox", "maildir") and t["tree_hl_full"]) else t["cfgs"]):
             sites.append({"what": "tree", "c": c, "ents": [
                 {"name": "e000", "type": "1", "sel": "/r s", "host": "other.example", "port": 70, "abstract": "a foreign menu"}],
                 "cfg": {"ah": ah, "ae": ae, "port": port}})
     # (3) search sites (the PYG search item needs the full handler list)
     if hl == "full" and port == t["srvports"][0]:
         ss = sorted(searches)
+        if t["tree_hl_full"]:
+            # quick tier: strings of two tokens only through a plain item and the item with a blank in its selector;
+            # single tokens and the whole-string shapes through every item (thorough: every pair TLC enumerated)
+            ss = [x for x in ss if x[0] in ("/echo.pyg", "/e b.pyg") or x[1] in t["stok"] or x[1] in t["sshapes"]]
         for i in range(0, len(ss), 24):
             sites.append({"what": "search", "c": base_c, "ents": [], "cfg": {"ah": "on", "ae": "always", "port": port},
                           "searches": [list(x) for x in ss[i:i + 24]], "ssels": t["ssels"]})
